@@ -3,6 +3,7 @@ package checks
 import (
 	"context"
 	"crypto/rand"
+	"encoding/json"
 	"fmt"
 	"math/big"
 	"time"
@@ -109,6 +110,12 @@ func c14Run(c core.Case, env *core.Env) core.Result {
 	case "encdec":
 		c14KeyStructure(&r, sk, &sk.PublicKey, 2048)
 		c14EncDec(&r, sk, c.P.Int("n"), rg)
+		c14Scripted(&r, sk)
+		var all []*paillier.PrivateKey
+		for i := range fx {
+			all = append(all, fx[i].PaillierSK)
+		}
+		c14KeyObjectReuse(&r, all)
 	case "homo":
 		c14Homo(&r, sk, c.P.Int("n"), rg)
 	case "domain":
@@ -164,6 +171,104 @@ func c14Messages(sk *paillier.PrivateKey, n int, rg interface{ Read([]byte) (int
 		ms = append(ms, seeded())
 	}
 	return ms
+}
+
+// scriptedReader hands out prepared byte strings for the reads of exactly their length, then real randomness. One-byte
+// reads (crypto/rand.Int's "maybe read a byte" step) are served without consuming the script.
+type scriptedReader struct {
+	script [][]byte
+	used   int
+}
+
+func (s *scriptedReader) Read(p []byte) (int, error) {
+	if len(p) > 1 && len(s.script) > 0 && len(s.script[0]) == len(p) {
+		copy(p, s.script[0])
+		s.script = s.script[1:]
+		s.used++
+		return len(p), nil
+	}
+	return rand.Read(p)
+}
+
+// c14Scripted: an entropy source whose first candidates for the encryption randomness are not units modulo N (multiples of
+// a prime factor, N itself is >= the bound, 0): the library has to skip them.
+func c14Scripted(r *core.Result, sk *paillier.PrivateKey) {
+	k := (sk.N.BitLen() + 7) / 8
+	pad := func(v *big.Int) []byte { return v.FillBytes(make([]byte, k)) }
+	cands := [][]byte{pad(new(big.Int).Mul(sk.P, big.NewInt(3))), pad(new(big.Int).Mul(sk.Q, big.NewInt(5))), pad(big.NewInt(0)), pad(new(big.Int).Set(sk.P))}
+	for i := range cands {
+		rd := &scriptedReader{script: [][]byte{cands[i], cands[(i+1)%len(cands)]}}
+		m := big.NewInt(int64(1000 + i))
+		c, x, err := sk.EncryptAndReturnRandomness(rd, m)
+		if err != nil {
+			r.Fail("encrypt-refuses", "Encrypt failed with an entropy source whose first candidates are not units: %v", err)
+			continue
+		}
+		r.Count("scripted_entropy_encryptions", 1)
+		if rd.used == 0 {
+			continue // the library reads its entropy in another way: nothing was steered
+		}
+		r.Count("scripted_candidates_consumed", int64(rd.used))
+		if x == nil || x.Sign() <= 0 || new(big.Int).GCD(nil, nil, x, sk.N).Cmp(big1) != 0 {
+			r.Fail("encrypt-randomness-not-unit", "the encryption randomness returned is not a unit modulo N (a candidate sharing a factor with N was used)")
+		}
+		if new(big.Int).GCD(nil, nil, c, sk.N).Cmp(big1) != 0 {
+			r.Fail("ciphertext-range", "ciphertext is not a unit modulo N^2 (entropy source with non-unit candidates)")
+		}
+		if got, err := sk.Decrypt(c); err != nil || got.Cmp(m) != 0 {
+			r.Fail("decrypt", "Dec(Enc(m)) fails for a ciphertext made with steered entropy: %v", err)
+		}
+	}
+}
+
+// c14KeyObjectReuse: one PublicKey / PrivateKey variable that is filled with several keys one after the other (decoding
+// stored keys into the same variable, assigning N after a key refresh) behaves as the key it currently holds.
+func c14KeyObjectReuse(r *core.Result, keys []*paillier.PrivateKey) {
+	var pk paillier.PublicKey
+	var sk paillier.PrivateKey
+	for round := 0; round < 2; round++ {
+		for i, k := range keys {
+			b, err := json.Marshal(&k.PublicKey)
+			bs, err2 := json.Marshal(k)
+			if err != nil || err2 != nil {
+				r.Inconcl("cannot serialise a key: %v %v", err, err2)
+				return
+			}
+			if err := json.Unmarshal(b, &pk); err != nil {
+				r.Fail("key-json", "cannot decode a public key: %v", err)
+				return
+			}
+			if err := json.Unmarshal(bs, &sk); err != nil {
+				r.Fail("key-json", "cannot decode a private key: %v", err)
+				return
+			}
+			m := big.NewInt(int64(77 + i))
+			c, err := pk.Encrypt(rand.Reader, m)
+			if err != nil {
+				r.Fail("key-object-reuse", "Encrypt with a re-filled key object fails: %v", err)
+				continue
+			}
+			if got, err := k.Decrypt(c); err != nil || got.Cmp(m) != 0 {
+				r.Fail("key-object-reuse", "a public key object decoded over a previous key encrypts under the wrong modulus (key %d, pass %d): %v", i, round, err)
+			}
+			if got, err := sk.Decrypt(c); err != nil || got.Cmp(m) != 0 {
+				r.Fail("key-object-reuse", "a private key object decoded over a previous key decrypts wrongly (key %d, pass %d): %v", i, round, err)
+			}
+			if pk.NSquare().Cmp(new(big.Int).Mul(k.N, k.N)) != 0 {
+				r.Fail("key-object-reuse", "NSquare() of a re-filled key object is not N^2")
+			}
+			// assigning the modulus directly
+			pk2 := paillier.PublicKey{N: keys[(i+1)%len(keys)].N}
+			pk2.NSquare()
+			pk2.N = k.N
+			if c2, err := pk2.Encrypt(rand.Reader, m); err != nil {
+				r.Fail("key-object-reuse", "Encrypt after assigning N fails: %v", err)
+			} else if got, err := k.Decrypt(c2); err != nil || got.Cmp(m) != 0 {
+				r.Fail("key-object-reuse", "a key object whose N was assigned after use still works modulo the old N^2")
+			}
+			r.Count("key_objects_refilled", 1)
+		}
+	}
 }
 
 func c14EncDec(r *core.Result, sk *paillier.PrivateKey, n int, rg interface {
